@@ -2,7 +2,7 @@ SPECIFICATION Spec
 CONSTANTS
   Keys <- KeysT
   Lens <- LensT
-  Depth = 2
+  Depth = 1
   MaxN = 4
   Modes <- ModesAll
   Deviations <- NoDev
